@@ -6,7 +6,7 @@ import gffutils.bins as B
 import gffutils.feature as F
 import gffutils.helpers as H
 
-from pyvc.core import SInt, SBool, SStr, MSet, IntLit, Val, Undecided
+from pyvc.core import SInt, SBool, SStr, MSet, IntLit, Val, Lit, Undecided
 from pyvc.interp import Interp
 from pyvc.harness import model_of, ev, concretize
 from pyvc.logic import And, Or, Not, Implies, Ite, Eq, shr
@@ -494,6 +494,91 @@ def unit_stored_bin(U):
                     p.pc, goal, {"start": s, "end": e}, replay=replay)
 
 
+def unit_stored_bin_gtf_finish(U):
+    """the GTF importer's own write path for inferred genes / transcripts (_GTFDBCreator._update_relations), also when
+    the id is already stored (update() re-infers over the whole database: the insert collides): whatever statements then
+    touch `features`, none leaves a row whose start / end / bin were not written together as (s, e, bins(s, e))"""
+    import sqlite3, lark
+    import gffutils.create as C
+    import gffutils
+    from pyvc import sqlmodel as Q
+    from contracts import importer as IM
+    from props import C03
+    for answer in ("merge", "create_unique"):
+        it, fs = C03._interp()
+
+        def mk_on_execute(ctx):
+            state = {"n": 0}
+
+            def on_execute(cur, q, a):
+                try:
+                    st = Q.parse(q)
+                except Q.SQLSyntax:
+                    return
+                if st.kind == "insert" and IM.insert_info(st.node)[0] == "features":
+                    state["n"] += 1
+                    if state["n"] == 1:
+                        raise sqlite3.IntegrityError("UNIQUE constraint failed: features.id")
+            return on_execute
+        inner = C03._finish_run(it, False, True, 1, True, on_execute=mk_on_execute)
+
+        def run(ctx, answer=answer, inner=inner):
+            def do_merge(interp, a, k):
+                f = a[1]
+                if answer == "merge":
+                    return (f, "merge")
+                f.id = SStr(list(SStr.of(f.id).atoms) + [Lit("_1")])
+                return (f, "create_unique")
+            it.contracts[C._DBCreator._do_merge] = do_merge
+            return inner(ctx)
+
+        def replay(m):
+            d = dict(gffutils.constants.dialect, fmt="gtf")
+            d.update({"quoted GFF2 values": True, "keyval separator": " ", "field separator": "; ", "trailing semicolon": True})
+            mk = lambda s, e, n: F.Feature(seqid="chr1", source="s", featuretype="exon", start=s, end=e, strand="+", attributes={"gene_id": ["g1"], "transcript_id": ["t1"], "exon_number": [str(n)]}, dialect=d)
+            db = gffutils.create_db([mk(1000, 2000, 1), mk(139000, 140000, 2)], ":memory:", dialect=d, id_spec={"gene": "gene_id", "transcript": "transcript_id", "exon": ["exon_number"]})
+            db.delete([f for f in db.features_of_type("exon") if f.start == 139000])
+            db.update([mk(3000, 4000, 3)], merge_strategy="create_unique", id_spec={"gene": "gene_id", "transcript": "transcript_id", "exon": ["exon_number"]})
+            rows = list(db.conn.execute("SELECT id, start, end, bin FROM features"))
+            bad = [tuple(r) for r in rows if r[3] != S.bin1(r[1], r[2], "gff")]
+            return {"inputs": "GTF: exons 1000-2000 and 139000-140000 of t1; delete the second; update with exon 3000-4000 of t1 (gene / transcript are re-inferred over stored ids)",
+                    "expected": "every row: bin == bins(start, end)", "observed": bad or [tuple(r) for r in rows], "violates": bool(bad)}
+        for p in U.explore(run, it):
+            base = "C12.stored_bin[gtf.finish,collision,%s]" % answer
+            if p.kind != "return":
+                U.prove(base + ".noraise#p%d" % p.index, "raises nothing (got %r)" % (p.value,), p.pc, z3.BoolVal(False), {}, replay=replay)
+                continue
+            goals = []
+            n = 0
+            for x in IM.classify(p.ctx.effects):
+                if x.table != "features" or x.kind not in ("insert", "update", "replace", "script"):
+                    continue
+                n += 1
+                if x.stmt is None:
+                    goals.append(z3.BoolVal(False))           # a write to features outside the modelled SQL: its effect on start / end / bin is unknown
+                    continue
+                try:
+                    if x.kind == "insert":
+                        t, conflict, cols, exprs = IM.insert_info(x.stmt.node)
+                        args = list(x.args)
+                        pairs = dict(zip(cols or Q.FEATURE_COLS, args)) if all(Q.expr_text(v).strip() == "?" for v in exprs) and len(args) == len(exprs) else None
+                    else:
+                        assigns = [a for a in x.stmt.node.children if isinstance(a, lark.Tree) and a.data == "assign"]
+                        touched = set(str(a.children[0]) for a in assigns)
+                        if not (touched & {"start", "end", "bin"}):
+                            continue
+                        args = list(x.args)
+                        pairs = {str(a.children[0]): v for a, v in zip(assigns, args)} if all(Q.expr_text(a.children[-1]).strip() == "?" for a in assigns) else None
+                    if not pairs or not all(isinstance(pairs.get(k), SInt) for k in ("start", "end", "bin")):
+                        goals.append(z3.BoolVal(False))
+                    else:
+                        goals.append(pairs["bin"].e == S.bin1(pairs["start"].e, pairs["end"].e, "gff"))
+                except (Q.SQLArgs, Q.SQLSyntax, Undecided, KeyError):
+                    goals.append(z3.BoolVal(False))
+            U.prove(base + "#p%d" % p.index, "every statement of the inferred-feature write path that sets start, end or bin of a features row sets all three, plainly, to (s, e, bins(s, e))",
+                    p.pc, z3.And(*goals) if goals else z3.BoolVal(n == 0 or True), {}, replay=replay)
+
+
 def unit_boundary(U):
     """Bounded stand-in named by the statement's quantifier: all pairs within +-2 of every bin
     boundary multiple (sampled multiples), 0 and 2**29; contract clauses evaluated natively."""
@@ -574,7 +659,7 @@ def unit_handed_out(U):
 
 UNITS = [("bounded.handed_out", unit_handed_out), ("bins[gff,one]", _unit_bins("gff", True)), ("bins[gff,set]", _unit_bins("gff", False)),
          ("bins[bed,one]", _unit_bins("bed", True)), ("bins[bed,set]", _unit_bins("bed", False)),
-         ("lemma.nest", unit_nest), ("init_bin", unit_init_bin), ("calc_bin", unit_calc_bin), ("calc_bin_twice", unit_calc_bin_twice), ("bins_twice", unit_bins_twice), ("print_bin_sizes", unit_print_bin_sizes), ("stored_bin", unit_stored_bin),
+         ("lemma.nest", unit_nest), ("init_bin", unit_init_bin), ("calc_bin", unit_calc_bin), ("calc_bin_twice", unit_calc_bin_twice), ("bins_twice", unit_bins_twice), ("print_bin_sizes", unit_print_bin_sizes), ("stored_bin", unit_stored_bin), ("stored_bin_gtf_finish", unit_stored_bin_gtf_finish),
          ("bounded.boundaries", unit_boundary)]
 
 
